@@ -69,6 +69,9 @@ impl PurlShape for Fam {
                 'n' => parts.name = Default::default(),
                 's' => parts.namespace = "Hook//Ns/".into(),
                 'S' => parts.namespace = "//".into(),
+                'o' => {
+                    parts.qualifiers.insert("checksum", "sha1:abc").unwrap();
+                },
                 'U' => parts.subpath = "./c//..".into(),
                 'v' => parts.version = "".into(),
                 'V' => parts.version = "9%".into(),
